@@ -45,6 +45,7 @@ pub fn main_campaign() -> SimCampaign {
             w_settle: 2,
             p_v5: 50,
             p_props: 70,
+            p_pub_alias: 30,
             p_sub_id: 40,
             p_alias: 30,
             p_persistent: 30,
